@@ -34,6 +34,11 @@ def class_key(case):
         k = _num(toks[-1])
         if k is not None:
             feats.append("k<0" if k < 0 else ("k=0" if k == 0 else "k>0"))
+    if pid == "C17" and op == "rel" and len(toks) > 5:
+        feats = [toks[3]]
+        lvl = _num(toks[5])
+        if toks[4] in ("CU", "CL") and lvl is not None and lvl <= 0.5:
+            feats.append("one-sided,level<=1/2")
     if pid == "C18" and op == "literal":
         feats = ["level-outside-(0,1)"]
         ty = ""
@@ -63,5 +68,52 @@ PROPS = {
              "a case is one request line, distinct by sha1 of its input; all are non-trivial (no rejection path exists)",
         trusted_base=INTERVAL_TB,
         assumptions=["element comparison of the Rust type is the total order of the theorem (i64, u8, &str; f64 without NaN)"],
+    ),
+    "C02": dict(
+        modules=["StatsCI.Properties.C02"],
+        anchors=["src/proportion.rs", "src/stats.rs", "src/confidence.rs"],
+        needs_crit=True, exhaustive=True, exact_ops=set(),
+        technique="Lean 4 theorems (Wilson score roots, domains, front-ends over exact reals) + exhaustive (n,k) differential correspondence with an exact-rational score-equation oracle",
+        level_text="Kernel-checked theorems over the model at exact real arithmetic: for all n, k, z the two returned bounds are exactly the roots of the "
+                   "score equation, lie in [0,1], one-sided requests return [root,1] / [0,root], the Wilson and Wald domains are exactly the documented "
+                   "integer conditions, and every front-end equals ci_wilson of the counts it implies. The model is tied to the code by running both on "
+                   "every (n,k) with 0<=k<=n+1 up to a bound (and sampled to 1e9), all kinds; the oracle evaluates the score-equation residual of the "
+                   "implementation's own bounds in exact dyadic arithmetic.",
+        level_note="Trusted: Lean kernel + 3 standard axioms; z comes from statrs called directly by the harness (external oracle) for the request the "
+                   "model makes; float rounding of the closed form is not proved, it is measured (residual <= 64*2^-53*max(1,z^2)).",
+        rule="exhaustive over (n,k), 0<=k<=n+1, n<=90 (quick) / 400 (thorough) x 4-14 confidences, plus sampled n up to 2^30, front-end data sets, "
+             "ratio form for every k/n; distinct by sha1 of the input; non-trivial = all (rejections are part of the documented domain)",
+        assumptions=["statrs Normal::inverse_cdf is the standard-normal quantile (validated under C06)"],
+    ),
+    "C03": dict(
+        modules=["StatsCI.Properties.C03"],
+        anchors=["src/quantile.rs", "src/proportion.rs"],
+        needs_crit=True, exhaustive=True, exact_ops={"qci"},
+        technique="Lean 4 theorems (ranks, bracketing, permutation invariance, entry-point agreement) + differential correspondence exhaustive in n over a q grid",
+        level_text="Kernel-checked theorems over the model: domain classification, ranks = min(floor(p n), n-1) of the Wilson bounds, in range, ordered, "
+                   "bracketing round(q n); over any linear order the bounds are the sorted elements at those ranks, the result is invariant under "
+                   "permutation of the data, and ci / ci_sorted_unchecked / ci_max_size / ci_indices agree. The tie to the code runs all n up to a bound "
+                   "x a grid of q containing every integer and half-integer value of q*n and its float neighbours, and data sets of i64/f64/&str/char "
+                   "with ties and all permutations of a 7-element sample.",
+        level_note="Trusted: Lean kernel + 3 standard axioms; the float ranks (floor of a rounded product) are compared with the model run on IEEE floats, "
+                   "the real-number rank theorems transfer to floats only up to 'one position' (checked by the oracle on every case).",
+        rule="all n in 0..160 (quick) / 0..2000 (thorough) x q grid (every integer and half-integer q*n and both float neighbours) x 6 confidences; "
+             "random n to 2e6; data-level cases for 4 element types; distinct by sha1 of the input",
+        assumptions=["elements are mutually comparable (NaN data is the documented panic, checked as such)"],
+    ),
+    "C17": dict(
+        modules=["StatsCI.Properties.C17"],
+        anchors=["src/proportion.rs"],
+        needs_crit=True, exhaustive=True, exact_ops=set(),
+        technique="Lean 4 theorems (monotonicity in k, mirror symmetry, shrinking, widening, midpoint over exact reals) + metamorphic relations checked on the implementation",
+        level_text="Kernel-checked theorems over the model at exact real arithmetic for every n, k, z>=0: both Wilson roots are non-decreasing in k, "
+                   "CI(n,n-k) = 1 - CI(n,k) with one-sidedness exchanged, width(mn,mk) < width(n,k) for m>1 and z>0, wider with z (hence with the level for a "
+                   "monotone quantile), bounds in [0,1], midpoint between k/n and 1/2. The same relations are re-checked on the implementation's own floats "
+                   "for all admissible (n,k) up to a bound, multipliers up to 50.",
+        level_note="Trusted: Lean kernel + 3 standard axioms; float slack of 8*2^-53 on the relations is measured, not proved. Known finding: for one-sided "
+                   "levels below 1/2 (negative z) a larger population does not narrow the interval (the theorem needs z>0).",
+        rule="all (n,k) with 2<=k<=n-2, n<=70 (quick) / 400 (thorough): mono (k,k+1), mirror, shrink (random m in 2..50), wider (random level pair); "
+             "random n to 1e6; distinct by sha1 of the input",
+        assumptions=["statrs Normal::inverse_cdf is increasing in p (validated numerically by the 'wider' relation itself)"],
     ),
 }
